@@ -405,9 +405,62 @@ def run(ctx, n):
     ctx.run_hypothesis(cases(), check, n)
 
 
+def grid_cases():
+    """The complete product of the discrete options (source layout x
+    destination layout x type pair x encodings x entry point) on one small
+    two-scale dataset with border chunks."""
+    out = []
+    k = 0
+    for src_kind in SRC_KINDS:
+        for dst_kind in sorted(set(DST_KINDS)):
+            for sdt in sorted(WIDER):
+                for ddt in (WIDER[sdt] if dst_kind != "copy_info" else [sdt]):
+                    sencs = ["raw", "compressed_segmentation"] \
+                        if sdt in ("uint32", "uint64") else ["raw"]
+                    for senc in sencs:
+                        dencs = ["raw", "compressed_segmentation"] \
+                            if ddt in ("uint32", "uint64") else ["raw"]
+                        if dst_kind == "copy_info":
+                            dencs = [senc]
+                        for denc in dencs:
+                            for via in ("cli", "api"):
+                                k += 1
+                                out.append({
+                                    "src_kind": src_kind,
+                                    "dst_kind": dst_kind,
+                                    "scales": [
+                                        {"size": [3, 3, 3],
+                                         "chunk": [2, 2, 2]},
+                                        {"size": [2, 2, 2],
+                                         "chunk": [2, 2, 2]}],
+                                    "src_dtype": sdt, "dst_dtype": ddt,
+                                    "src_enc": senc, "dst_enc": denc,
+                                    "channels": 1 + k % 2,
+                                    "bits": [k % 2, 1, 0],
+                                    "dbits": [0, 1 + k % 2, k % 2],
+                                    "shard_enc": ("raw", "gzip")[k % 2],
+                                    "block": [2, 2, 2], "dblock": [2, 1, 2],
+                                    "dst_spelling": "plain", "via": via,
+                                    "seed": k})
+    return out
+
+
+def run_grid(ctx, n):
+    def check(ctx, case):
+        check_case(ctx, case)
+        ctx.record(case, True, [
+            "src." + case["src_kind"], "dst." + case["dst_kind"],
+            "via." + case["via"],
+            "%s->%s" % (case["src_enc"][:3], case["dst_enc"][:3]),
+            "%s->%s" % (case["src_dtype"], case["dst_dtype"])])
+    ctx.run_grid(grid_cases(), check)
+
+
 def replay(ctx, case):
     check_case(ctx, case)
 
 
 SUBS = [Sub("convert", run, replay, quick=300, thorough=8000,
-            min_per_shard=10)]
+            min_per_shard=10),
+        Sub("option_grid", run_grid, replay, quick=1, thorough=1, shards=14,
+            sweep=True)]
